@@ -247,7 +247,7 @@ func init() {
 		// different or the same document), a final Resolve observing the end state
 		maxLen, pairLen := 3, 2
 		if thorough {
-			maxLen, pairLen = 5, 4
+			maxLen, pairLen = 5, 3
 		}
 		for ki, kind := range compressingKinds {
 			enumerate("abrxf", maxLen, func(h string) {
